@@ -114,6 +114,30 @@ def _grid_case(args):
         f2 = pf.filter(QPTS[:, 0], QPTS[:, 1])
         single = [PolygonFilter.point_in_poly(tuple(p), verts)
                   for p in QPTS[ok][:9]]
+        # the two coordinate arrays of a dataset need not share a dtype:
+        # integer-valued x as int64 (e.g. a frame number) with float y,
+        # integer-valued y as int32 with float x, float32 with float64
+        xi = ok & (QX % 2 == 0)
+        yi = ok & (QY % 2 == 0)
+        pf.inverted = False
+        mixed = (
+            np.array_equal(pf.filter((QX[xi] // 2).astype(np.int64),
+                                     QPTS[xi, 1]), inside[xi])
+            and np.array_equal(pf.filter(QPTS[yi, 0],
+                                         (QY[yi] // 2).astype(np.int32)),
+                               inside[yi])
+            and np.array_equal(pf.filter(QPTS[ok, 0].astype(np.float32),
+                                         QPTS[ok, 1]), inside[ok])
+            and np.array_equal(pf.filter(QPTS[ok, 0],
+                                         QPTS[ok, 1].astype(np.float32)),
+                               inside[ok]))
+        if not mixed:
+            out.append(violation(
+                PF + ".filter", "wrong-classification", case,
+                "PolygonFilter.filter with coordinate arrays of different "
+                "dtypes (int64/float64, float64/int32, float32/float64) "
+                "disagrees with the even-odd rule",
+                {"nv": nv, "variant": "mixed-dtypes"}))
         if not (np.array_equal(f1[ok], inside[ok])
                 and np.array_equal(f2[ok], ~inside[ok])
                 and single == inside[ok][:9].tolist()):
